@@ -646,6 +646,9 @@ def text_fd_to_metric_families(fd):
                     group_timestamp_samples = set()
 
                 series_id = (sample.name, tuple(sorted(sample.labels.items())))
+                if sample.timestamp != group_timestamp:
+                    # The duplicate set describes the current timestamp of the group only.
+                    group_timestamp_samples = set()
                 if sample.timestamp != group_timestamp or series_id not in group_timestamp_samples:
                     # Not a duplicate due to timestamp truncation.
                     samples.append(sample)
